@@ -11,7 +11,112 @@ let norm withid (s : psample) : psample = if withid then s else { s with ps_id =
 let sample_eq (a : psample) (b : psample) : bool =
   a.ps_ms = b.ps_ms && a.ps_tag = b.ps_tag && a.ps_id = b.ps_id && a.ps_fields = b.ps_fields
 
-let zdiv1000 (ns : string) : z = z_of_zt (Z.div (Z.of_string ns) (Z.of_int 1000))
+let zdiv1000 (ns : string) : z = z_of_zt (ZT.div (ZT.of_string ns) (ZT.of_int 1000))
+
+(* ---- aggr cases: samples are a fixed function of their id (same function as harness/cmd/hC06/aggr.go) ---- *)
+let id_shift = 20
+let bytes_of_string (s : string) : n list = List.init (String.length s) (fun i -> n_of_int (Char.code s.[i]))
+
+let sample_of_id (id : int) : psample =
+  let ns = 1600000000000000000 + id * 1000003 in
+  { ps_ms = ms_of_ns (z_of_int ns);
+    ps_tag = bytes_of_string ("t" ^ string_of_int (id lsr id_shift));
+    ps_id = n_of_int id;
+    ps_fields = List.init 10 (fun k -> if k = 7 then z_of_int id else z_of_int ((id * (k + 1)) mod 1009 - 100)) }
+
+let owner (i : n) : n = n_of_int ((int_of_n i) lsr id_shift)
+
+let ids_of_csv (s : string) : int list =
+  if s = "-" || s = "" then [] else List.map int_of_string (String.split_on_char ',' s)
+
+let csv_of_ids (l : int list) : string = if l = [] then "-" else String.concat "," (List.map string_of_int l)
+
+(* the ids of the lines of an observed payload; None = some line is malformed / not a reported sample *)
+let lines_of_payload (withid : bool) (payload : string) : int list option =
+  if String.length payload >= 4 && String.sub payload 0 4 = "hex:" then begin
+    let data = bytes_of_hex (String.sub payload 4 (String.length payload - 4)) in
+    match parse_file withid data with
+    | None -> None
+    | Some ss ->
+        let ok = ref true in
+        let ids = List.map (fun (s : psample) ->
+          let id = (match List.nth_opt s.ps_fields 7 with Some v -> (try int_of_z v with _ -> -1) | None -> -1) in
+          if id < 0 || not (sample_eq s (norm withid (sample_of_id id))) then ok := false;
+          id) ss in
+        if !ok then Some ids else None
+  end else if String.length payload >= 4 && String.sub payload 0 4 = "ids:" then begin
+    match String.split_on_char ';' (String.sub payload 4 (String.length payload - 4)) with
+    | [ids; "bad=0"] -> Some (if ids = "" then [] else ids_of_csv ids)
+    | _ -> None
+  end else None
+
+let rec run_lazy enc kind q (st : int st) (accepted : int -> bool) (order : int list) : int st option =
+  match order with
+  | [] -> Some st
+  | id :: rest ->
+      let full = List.length st.queue >= q in
+      let st1 = if full && (kind = Blocking || accepted id) then step enc kind (nat_of_int q) st Handle else Some st in
+      (match st1 with
+       | None -> None
+       | Some st1 ->
+           (match step enc kind (nat_of_int q) st1 (Report (owner (n_of_int id), id)) with
+            | None -> None
+            | Some st2 -> run_lazy enc kind q st2 accepted rest))
+
+let aggr_case fmt q g per mode delay obs : string * string * bool =
+  let kind = if fmt = "phout" || fmt = "phoutid" then Blocking else Dropping in
+  let withid = (fmt <> "phout") in
+  let enc (id : int) : n list option =
+    if fmt = "json" then Some (bytes_of_string (string_of_int id ^ "\n"))
+    else (match render_phout withid (sample_of_id id) with Ok l -> Some (l @ [n_of_int 10]) | Panic -> None) in
+  let reports = List.init g (fun i -> List.init per (fun j -> n_of_int ((i lsl id_shift) lor j))) in
+  let total = g * per in
+  let (oerr, oorder, opayload) =
+    (match split_blank obs with
+     | [e; o; p] -> (e, o, p)
+     | e :: _ -> (e, "-", "")
+     | [] -> ("", "-", "")) in
+  let olines = lines_of_payload withid opayload in
+  (* specification on the observation *)
+  let drops_err =
+    if oerr = "nil" then Some (0, None)
+    else if String.length oerr > 8 && String.sub oerr 0 8 = "dropped:" then
+      (let d = int_of_string (String.sub oerr 8 (String.length oerr - 8)) in Some (d, Some (n_of_int d)))
+    else None in
+  let v =
+    (match drops_err, olines with
+     | None, _ -> "BAD:run-ended-with-" ^ oerr
+     | _, None -> "BAD:malformed-or-foreign-line"
+     | Some (d, e), Some ls ->
+         if complete_b kind owner reports (List.map n_of_int ls) (n_of_int d) e then "ok"
+         else Printf.sprintf "BAD:incomplete lines=%d dropped=%d reports=%d" (List.length ls) d total) in
+  (* prediction of the model *)
+  let render_pred (st : int st) (order : int list) : string =
+    let err = (match run_error st with None -> "nil" | Some d -> "dropped:" ^ string_of_n d) in
+    let payload = if fmt = "json" then "ids:" ^ String.concat "," (List.map string_of_int st.acc_log) ^ ";bad=0"
+                  else "hex:" ^ hex_of_bytes st.sink in
+    err ^ " " ^ csv_of_ids order ^ " " ^ payload in
+  let finish (st : int st) : int st option =
+    (match step enc kind (nat_of_int q) st Cancel with
+     | None -> None
+     | Some st1 -> run enc kind (nat_of_int q) st1 (finish_history st1)) in
+  let pred =
+    if mode = "free" then (if v = "ok" then obs else "nondeterministic-order")
+    else begin
+      let order = if mode = "pre" then List.concat (List.init per (fun j -> List.init g (fun i -> (i lsl id_shift) lor j)))
+                  else ids_of_csv oorder in
+      let accepted = (match olines with Some ls -> (fun id -> List.mem id ls) | None -> (fun _ -> true)) in
+      let st0 = if mode = "pre" then run enc kind (nat_of_int q) init (List.map (fun id -> Report (owner (n_of_int id), id)) order)
+                else run_lazy enc kind q init accepted order in
+      (match st0 with
+       | None -> "model:history-not-enabled"
+       | Some st0 ->
+           (match finish st0 with
+            | None -> "model:cannot-finish"
+            | Some st -> if st.ph = Done && st.closed && st.buf = [] && st.queue = [] then render_pred st order else "model:not-done"))
+    end in
+  ignore delay;
+  (pred, v, total >= 2)
 
 let predict (c : string) (obs : string) : string * string * bool =
   match split_blank c with
@@ -39,6 +144,8 @@ let predict (c : string) (obs : string) : string * string * bool =
                  (match parse_phout true (bytes_of_hex obs) with Some s' -> sample_eq s' want | None -> false) in
         (p, verdict ok "columns are not in the documented order", true)
       end else (p, "ok", false)
+  | ["aggr"; fmt; q; g; per; mode; delay; _; _] ->
+      aggr_case fmt (int_of_string q) (int_of_string g) (int_of_string per) mode (int_of_string delay) obs
   | _ -> ("unknown-case", "BAD:unknown-case", false)
 
 let () = run_cases predict
